@@ -11,6 +11,7 @@ import (
 
 	ipfslog "berty.tech/go-ipfs-log"
 	"berty.tech/go-orbit-db/iface"
+	cid "github.com/ipfs/go-cid"
 
 	"verifharness/fw"
 	"verifharness/sim"
@@ -27,8 +28,8 @@ type ScenCfg struct {
 	Wild    bool // wildcard write list instead of explicit ids
 
 	// weights of step kinds
-	WWrite, WDeliver, WDeliverAll, WDrop, WDup, WCut, WHeal, WRestart, WSync, WConc, WBurst int
-	CheckEvery                                                                              int
+	WWrite, WDeliver, WDeliverAll, WDrop, WDup, WCut, WHeal, WRestart, WSync, WConc, WBurst, WFaultyDeliver, WHoleHeal int
+	CheckEvery                                                                                                         int
 }
 
 type Step struct {
@@ -46,7 +47,7 @@ func (s Step) String() string {
 		return fmt.Sprintf("w%d:%s", s.A, s.Op)
 	case "conc":
 		return fmt.Sprintf("conc%d:%s", s.A, s.Op)
-	case "cut", "heal", "sync":
+	case "cut", "heal", "sync", "hh":
 		return fmt.Sprintf("%s(%d,%d)", s.K, s.A, s.B)
 	case "restart":
 		return fmt.Sprintf("restart(%d)", s.A)
@@ -70,27 +71,29 @@ type Runner struct {
 	DB    *DB
 	Rng   *rand.Rand
 
-	mu          sync.Mutex
-	Universe    map[string]*EntryInfo
-	Acked       []string                   // hashes of acknowledged writes, in ack order
-	SeenAtWrite map[string]map[string]bool // hash -> hashes in the writer's log before the write
-	WriterOf    map[string]int
-	Counter     int
-	Trace       []string
-	V           fw.Verdict
-	Checks      []func(r *Runner, snaps []*Snap, label string) *Violation
-	prevSnap    map[int]*Snap
-	Lost        int
-	Restarts    int
-	Cuts        int
-	ConcSteps   int
-	Checkpoints int
-	Compared    int
-	failed      *Violation
-	watchdog    bool
-	stale       map[int]bool // peers whose view may lag their log after an injected datastore failure
-	PeerOpts    func(i int, o *sim.PeerOpts)
-	OnStep      func(si int, st Step)
+	mu            sync.Mutex
+	Universe      map[string]*EntryInfo
+	Acked         []string                   // hashes of acknowledged writes, in ack order
+	SeenAtWrite   map[string]map[string]bool // hash -> hashes in the writer's log before the write
+	WriterOf      map[string]int
+	Counter       int
+	Trace         []string
+	V             fw.Verdict
+	Checks        []func(r *Runner, snaps []*Snap, label string) *Violation
+	prevSnap      map[int]*Snap
+	Lost          int
+	Restarts      int
+	Cuts          int
+	ConcSteps     int
+	FaultyFetches int
+	HoleHeals     int
+	Checkpoints   int
+	Compared      int
+	failed        *Violation
+	watchdog      bool
+	stale         map[int]bool // peers whose view may lag their log after an injected datastore failure
+	PeerOpts      func(i int, o *sim.PeerOpts)
+	OnStep        func(si int, st Step)
 }
 
 func (r *Runner) logf(f string, a ...interface{}) {
@@ -182,7 +185,7 @@ func (r *Runner) GenSteps(rng *rand.Rand) []Step {
 		k string
 		w int
 	}
-	ws := []wk{{"w", c.WWrite}, {"d", c.WDeliver}, {"da", c.WDeliverAll}, {"drop", c.WDrop}, {"dup", c.WDup}, {"cut", c.WCut}, {"heal", c.WHeal}, {"restart", c.WRestart}, {"sync", c.WSync}, {"conc", c.WConc}, {"burst", c.WBurst}}
+	ws := []wk{{"w", c.WWrite}, {"d", c.WDeliver}, {"da", c.WDeliverAll}, {"drop", c.WDrop}, {"dup", c.WDup}, {"cut", c.WCut}, {"heal", c.WHeal}, {"restart", c.WRestart}, {"sync", c.WSync}, {"conc", c.WConc}, {"burst", c.WBurst}, {"fd", c.WFaultyDeliver}, {"hh", c.WHoleHeal}}
 	tot := 0
 	for _, x := range ws {
 		tot += x.w
@@ -201,6 +204,13 @@ func (r *Runner) GenSteps(rng *rand.Rand) []Step {
 		}
 		st := Step{K: k, R: rng.Float64()}
 		switch k {
+		case "hh":
+			st.A = wr[rng.Intn(len(wr))]
+			st.B = rng.Intn(c.NPeers - 1)
+			if st.B >= st.A {
+				st.B++
+			}
+			st.N = 2 + rng.Intn(3)
 		case "w", "conc":
 			st.A = wr[rng.Intn(len(wr))]
 			op := r.GenOp(rng)
@@ -427,6 +437,85 @@ func (r *Runner) Exec(steps []Step) {
 				}
 				r.logf("deliver %s %d->%d", m.Kind, m.From, m.To)
 				r.settle()
+			}
+		case "hh":
+			// hole then heal: B receives only A's newest head while none of its ancestors can be fetched
+			// (the head is merged alone, above a hole); the same announcement is then delivered again
+			// and the ancestors join BELOW the unchanged head
+			A, B := r.Peers[st.A], r.Peers[st.B]
+			if !A.Running() || !B.Running() || !w.Linked(A, B) {
+				break
+			}
+			for _, m := range w.Inflight() {
+				if m.From == st.A && m.To == st.B {
+					w.Take(m.ID)
+					r.Lost++
+				}
+			}
+			for k := 0; k < st.N; k++ {
+				_ = r.Write(st.A, r.GenOp(r.Rng))
+				r.settle()
+			}
+			var newest *sim.Msg
+			for _, m := range w.Inflight() {
+				if m.From == st.A && m.To == st.B && m.Kind == "pub" {
+					if newest != nil {
+						w.Take(newest.ID)
+					}
+					newest = m
+				}
+			}
+			if newest == nil {
+				break
+			}
+			w.Take(newest.ID)
+			w.SetGate(func(ctx context.Context, to, from *sim.Peer, _ cid.Cid) error {
+				if to == B {
+					return fmt.Errorf("sim: injected fetch failure")
+				}
+				return nil
+			})
+			w.Deliver(newest)
+			r.settle()
+			w.SetGate(nil)
+			r.Checkpoint(fmt.Sprintf("step%d/hole", si))
+			w.Deliver(newest)
+			r.settle()
+			r.HoleHeals++
+			r.logf("hole-heal %d->%d (%d writes)", st.A, st.B, st.N)
+		case "fd":
+			// a delivery during which one remote block fetch of the receiver fails (the message stays in the
+			// pool and is delivered again later, so that the abandoned entries are asked for again)
+			if m := r.pickMsg(st.R); m != nil && m.Kind == "pub" {
+				target := r.Peers[m.To]
+				failed := false
+				victim := ""
+				var gmu sync.Mutex
+				grng := rand.New(rand.NewSource(int64(st.R * 1e9)))
+				w.SetGate(func(ctx context.Context, to, from *sim.Peer, c cid.Cid) error {
+					if to != target {
+						return nil
+					}
+					gmu.Lock()
+					defer gmu.Unlock()
+					// one block stays unfetchable for the whole delivery (the fetcher's look-ahead and the
+					// replicator's own fetch of it both fail), so the entry is really abandoned
+					if victim == "" && grng.Intn(2) == 0 {
+						victim = c.String()
+					}
+					if victim == c.String() {
+						failed = true
+						return fmt.Errorf("sim: injected fetch failure")
+					}
+					return nil
+				})
+				w.Deliver(m)
+				r.logf("faulty deliver %s %d->%d", m.Kind, m.From, m.To)
+				r.settle()
+				w.SetGate(nil)
+				if failed {
+					r.FaultyFetches++
+				}
 			}
 		case "burst":
 			// several deliveries without waiting in between
